@@ -439,8 +439,8 @@ def run(chk):
     thorough = chk.tier == "thorough"
     hy = pc.hy_mod()
     validate_facts(chk, chk.rng, 20000 if thorough else 2000)
-    n_values = 9000 if thorough else 600
-    n_graphs = 1500 if thorough else 120
+    n_values = 5000 if thorough else 600
+    n_graphs = 800 if thorough else 120
     chk.rule = ("values = fixed list (incl. the refutation witnesses) + seeded recursive generator over all documented types "
                 "(depth <= 3 quick, <= 5 thorough; strings over quotes, backslashes, controls, Latin-1, non-printables, astral, "
                 "surrogates; floats incl. random bit patterns, nan, inf, -0.0; ints to 10^40); graphs = random container trees "
@@ -580,7 +580,7 @@ def run(chk):
     finally:
         import hy.core.hy_repr as hr
         hr._registry.pop(Sentinel, None)
-    histories(chk, 400 if thorough else 60)
+    histories(chk, 250 if thorough else 60)
     # _seen must be empty again (a leak would corrupt every later case)
     leaked = len(hr._seen)
     chk.obligation("hy-repr left _seen empty after all cases", leaked == 0, "%d ids left" % leaked)
